@@ -249,11 +249,17 @@ def _case(mn, mx):
                     % (last, last, last, last, ci, last, ci, last, ci)))
     ens += [
         ("solved", "feasible(solver)"),
-        # NOT under contract (bounded only, drivers c01/c02/c08): `nodes[j].currentPos == round(position of its variable)`
-        # and the resulting neighbour separation/order in the rounded positions.  The loop invariant of the final loop
-        # (prefix_rounded) IS proved; transporting it back through the filter comprehension to the node list did not
-        # discharge (instantiation blow-up over ~15 heap versions), so the clauses are left out rather than left flaky.
-    ]
+    ] + ([
+        # END-TO-END clauses, configuration without bounds only, THOROUGH tier only (`thorough_only` below): they discharge in
+        # 2-30 s there; with a wall variable in front (index offset) they came back `unknown` even at 60 s per stage, so for the
+        # other three configurations they stay bounded (drivers c01-c03, c08).
+        # -- the reported position of every item is the rounded solver position of ITS variable ...
+        ("rounded_positions", "forall(lambda j: implies(0 <= j < len(nodes), nodes[j].currentPos == round(spos({V}[j]))))"),
+        # -- ... hence C01 for neighbours: the required gap less at most 1 unit of rounding (and the solver's 1e-10 tolerance),
+        #    unless the solver flagged the constraint (an acyclic chain is never flagged: bounded only, drivers c01/c05)
+        ("C01_neighbours_separated", "forall(lambda i: implies(0 <= i < len(nodes) - 1, constraints[i].unsatisfiable or "
+                                     "nodes[i + 1].currentPos - nodes[i].currentPos >= gap_between(nodes[i], nodes[i + 1], 2, options['nodeSpacing']) - 1 - 1e-10))"),
+    ] if (mn, mx) == ("none", "none") else [])
     # stepping stones: facts about the lists that do not mention currentPos; proved when the final loop is reached,
     # trivially preserved by it (it writes Node.currentPos only)
     stones = [
@@ -357,13 +363,16 @@ def _case(mn, mx):
     return ens, stones, asserts, cuts
 
 
-# Verified configurations: case 0 (no bounds) and case 2 (lower bound only - the engine's default).  The two configurations
-# with an upper bound (right wall appended in place / after the left wall) are listed for documentation but not run:
-# several of their cut-point assertions came back `unknown`; they are bounded only (drivers c01-c03).
+# Four bound configurations.  Case 0 (no bounds) and case 2 (lower bound only - the engine's default) run under this key; the
+# two configurations with an upper bound (cases 1 and 3: right wall appended in place / after the left wall) run under the
+# alias key `removeOverlap.removeOverlap@upper_bound` at the end of this file, so that the pool verifies them in parallel.
+# (Until the relevance-filter / context-slice discharge stages existed several cut-point assertions of cases 1 and 3 came back
+# `unknown` and those cases were not run.)
 CONTRACTS["removeOverlap.removeOverlap"]["quick_cases"] = [0, 2]
 CONTRACTS["removeOverlap.removeOverlap"]["thorough_cases"] = [0, 2]
 CONTRACTS["removeOverlap.removeOverlap"]["cases"] = [
     {"params": {"options": _options(mn, mx)}, "ensures": _case(mn, mx)[0], "loops": {2: {"inv": _case(mn, mx)[1]}},
+     "thorough_only": ["rounded_positions", "C01_neighbours_separated"],
      "_asserts_before_solver": _case(mn, mx)[2], "cuts": _case(mn, mx)[3]}
     for mn in ("none", "real") for mx in ("none", "real")]
 CONTRACTS["removeOverlap.removeOverlap"]["requires"] += [
@@ -375,3 +384,8 @@ CONTRACTS["removeOverlap.removeOverlap"]["loops"][2] = {
     # the element just written vs. the earlier ones
     "preserve_splits": {"prefix_rounded": ["k == _k2 - 1"]},
 }
+
+
+CONTRACTS["removeOverlap.removeOverlap@upper_bound"] = dict(CONTRACTS["removeOverlap.removeOverlap"],
+                                                            func_alias="removeOverlap.removeOverlap",
+                                                            quick_cases=[1, 3], thorough_cases=[1, 3])
